@@ -189,7 +189,7 @@ Finish(s) ==
     /\ phase' = "done"
     /\ strat' = s
     /\ expected' = [i \in 1..len |-> ReplicasAt(s, i)]
-    /\ byKey' = [k \in 1..(2 * len + 1) |-> ReplicasAt(s, Lookup(len, k))]
+    /\ byKey' = [k \in 1..(2 * len + 1) |-> expected'[Lookup(len, k)]]
     /\ UNCHANGED <<len, ring, dc, rack>>
 
 Next == \/ \E h \in 1..MaxHosts : OldToken(h)
